@@ -273,3 +273,29 @@ def edge_facts(e):
         if k in ('true', 'false'):
             return conjuncts(e.src.stmt.test, k == 'true')
     return []
+
+
+def denotes(func_node, name, depth=0):
+    """source texts a local name may stand for: the values assigned to it and, for a loop variable, the elements of a literal tuple / list it iterates
+    over (`for comms in (self._ctrl_comms, self._comms)`) - so that a rule about `self._comms.parent_end` also sees `comms.parent_end`"""
+    out = set()
+    for n in walk_local(func_node):
+        if isinstance(n, ast.Assign) and any(is_name(t, name) for t in n.targets):
+            out.add(norm(n.value))
+        if isinstance(n, (ast.For, ast.comprehension)) and is_name(n.target, name) and isinstance(n.iter, (ast.Tuple, ast.List)):
+            out.update(norm(e) for e in n.iter.elts)
+    return out
+
+
+def receiver_texts(func_node, call):
+    """receiver() of a call with its leading local expanded through denotes(): ['comms.parent_end'] -> {'self._comms.parent_end', ...}"""
+    r = receiver(call)
+    if not r:
+        return set()
+    head, _, rest = r.partition('.')
+    outs = {r}
+    if head != 'self':
+        for v in denotes(func_node, head):
+            outs.add(v + ('.' + rest if rest else ''))
+    return outs
+
